@@ -27,7 +27,7 @@ use crate::props::sim::{self, ExecSet, FamilyRun};
 use crate::rec::{self, Ev};
 use crate::util::{h2, Json, Opts, Report, Rng};
 
-const FOCUS: &[u32] = &[site::SCHED_LOCKED_BEFORE_TIME_READ, site::STEP_TIME_WRITTEN, site::STEP_LOCKED, site::STEP_ACTION_PULLED, site::CELL_WRITE_ODD, site::CELL_WRITE_STORED, site::TIME_STORE_HALF, site::STEP_BEFORE_SYNC];
+const FOCUS: &[u32] = &[site::STEP_UNTIL_BEFORE_FINAL_WRITE, site::SCHED_LOCKED_BEFORE_TIME_READ, site::STEP_TIME_WRITTEN, site::STEP_LOCKED, site::STEP_ACTION_PULLED, site::CELL_WRITE_ODD, site::CELL_WRITE_STORED, site::TIME_STORE_HALF, site::STEP_BEFORE_SYNC];
 
 /// Period of the periodic requests of the threaded part: far beyond the
 /// horizon of a case, so only the first occurrence lies inside it.
@@ -173,7 +173,7 @@ pub fn threaded_case(rep: &mut Report, opts: &Opts, case: u64, prop: &str) {
     rec::in_call(true);
     loop {
         let done = handles.iter().all(|h| h.is_finished());
-        let r = if steps % 3 == 2 { simu.step_until(Duration::from_nanos(1)) } else { simu.step() };
+        let r = if steps % 3 == 2 { simu.step_until(Duration::from_nanos(1 + (steps / 3) % 3)) } else { simu.step() };
         steps += 1;
         rec::progress();
         if let Err(e) = r {
